@@ -24,14 +24,12 @@ def svcT (s : Stack) : TStore SvcKey × List (Timer Cb) × List (RItem Cb) :=
 @[simp] theorem svcT_with_draws (s : Stack) (x : List Nat) : svcT { s with draws := x } = svcT s := rfl
 @[simp] theorem svcT_with_storeLog (s : Stack) (x : List (Bool × SvcKey × Addr)) : svcT { s with storeLog := x } = svcT s := rfl
 
-@[simp] theorem svcT_with_tasks (s : Stack) (x : List (Nat × TaskSt)) : svcT { s with tasks := x } = svcT s := rfl
-@[simp] theorem svcT_with_nextTid (s : Stack) (x : Nat) : svcT { s with nextTid := x } = svcT s := rfl
+@[simp] theorem svcT_with_tasks (s : Stack) (x : List (Tid × TaskSt)) : svcT { s with tasks := x } = svcT s := rfl
 @[simp] theorem svcT_with_collectors (s : Stack) (x : List Collector) : svcT { s with collectors := x } = svcT s := rfl
 @[simp] theorem svcT_with_nextCid (s : Stack) (x : Nat) : svcT { s with nextCid := x } = svcT s := rfl
 @[simp] theorem svcT_with_outgoing (s : Stack) (x : Outgoing) : svcT { s with outgoing := x } = svcT s := rfl
 @[simp] theorem svcT_with_instances (s : Stack) (x : List Instance) : svcT { s with instances := x } = svcT s := rfl
 @[simp] theorem svcT_with_outs (s : Stack) (x : List (Nat × Out)) : svcT { s with outs := x } = svcT s := rfl
-@[simp] theorem svcT_with_tasks_nextTid (s : Stack) (x : List (Nat × TaskSt)) (y : Nat) : svcT { s with tasks := x, nextTid := y } = svcT s := rfl
 @[simp] theorem svcT_with_coll_nextCid (s : Stack) (x : List Collector) (y : Nat) : svcT { s with collectors := x, nextCid := y } = svcT s := rfl
 
 @[simp] theorem svcT_emit (s : Stack) (o : Out) : svcT (s.emit o) = svcT s := rfl
@@ -54,10 +52,10 @@ theorem svcT_callLater (s : Stack) (d : Nat) (cb : Cb) (h : isSvcExpiry cb = fal
 @[simp] theorem svcT_callLater_sendOfferTo (s : Stack) (d : Nat) (i : Nat) (a : Addr) : svcT (s.callLater d (.sendOfferTo i a)).1 = svcT s := svcT_callLater _ _ _ rfl
 @[simp] theorem svcT_callSoon_collectorTimeout (s : Stack) (c : Nat) : svcT (s.callSoon (.collectorTimeout c)) = svcT s := svcT_callSoon _ _ rfl
 @[simp] theorem svcT_callLater_collectorTimeout (s : Stack) (d : Nat) (c : Nat) : svcT (s.callLater d (.collectorTimeout c)).1 = svcT s := svcT_callLater _ _ _ rfl
-@[simp] theorem svcT_callSoon_taskStep (s : Stack) (t : Nat) : svcT (s.callSoon (.taskStep t)) = svcT s := svcT_callSoon _ _ rfl
-@[simp] theorem svcT_callLater_taskStep (s : Stack) (d : Nat) (t : Nat) : svcT (s.callLater d (.taskStep t)).1 = svcT s := svcT_callLater _ _ _ rfl
-@[simp] theorem svcT_callSoon_sleepDone (s : Stack) (t : Nat) : svcT (s.callSoon (.sleepDone t)) = svcT s := svcT_callSoon _ _ rfl
-@[simp] theorem svcT_callLater_sleepDone (s : Stack) (d : Nat) (t : Nat) : svcT (s.callLater d (.sleepDone t)).1 = svcT s := svcT_callLater _ _ _ rfl
+@[simp] theorem svcT_callSoon_taskStep (s : Stack) (t : Tid) : svcT (s.callSoon (.taskStep t)) = svcT s := svcT_callSoon _ _ rfl
+@[simp] theorem svcT_callLater_taskStep (s : Stack) (d : Nat) (t : Tid) : svcT (s.callLater d (.taskStep t)).1 = svcT s := svcT_callLater _ _ _ rfl
+@[simp] theorem svcT_callSoon_sleepDone (s : Stack) (t : Tid) : svcT (s.callSoon (.sleepDone t)) = svcT s := svcT_callSoon _ _ rfl
+@[simp] theorem svcT_callLater_sleepDone (s : Stack) (d : Nat) (t : Tid) : svcT (s.callLater d (.sleepDone t)).1 = svcT s := svcT_callLater _ _ _ rfl
 
 /-- cancelling a handle of another component (`own` never holds for a discovery-store expiry) -/
 theorem svcT_cancelTimer_other (s : Stack) (own : Cb → Bool) (t : Option Nat) (h : ∀ cb, own cb = true → isSvcExpiry cb = false) :
@@ -96,8 +94,8 @@ theorem svcT_cancelTimer_other (s : Stack) (own : Cb → Bool) (t : Option Nat) 
 @[simp] theorem isSvc_sendStop (d : Addr) (e : List Eventgroup) : isSvcExpiry (.sendStopSubscribe d e) = false := rfl
 @[simp] theorem isSvc_sendOfferTo (i : Nat) (a : Addr) : isSvcExpiry (.sendOfferTo i a) = false := rfl
 @[simp] theorem isSvc_collectorTimeout (c : Nat) : isSvcExpiry (.collectorTimeout c) = false := rfl
-@[simp] theorem isSvc_taskStep (t : Nat) : isSvcExpiry (.taskStep t) = false := rfl
-@[simp] theorem isSvc_sleepDone (t : Nat) : isSvcExpiry (.sleepDone t) = false := rfl
+@[simp] theorem isSvc_taskStep (t : Tid) : isSvcExpiry (.taskStep t) = false := rfl
+@[simp] theorem isSvc_sleepDone (t : Tid) : isSvcExpiry (.sleepDone t) = false := rfl
 
 @[simp] theorem svcT_draw (s : Stack) (a b : Nat) : svcT (s.draw a b).1 = svcT s := by
   unfold draw; split <;> rfl
@@ -108,12 +106,13 @@ theorem svcT_armTtl (s : Stack) (ttl : Nat) (cb : Cb) (h : isSvcExpiry cb = fals
 @[simp] theorem svcT_armTtl_sub (s : Stack) (ttl i : Nat) (a : Addr) (k : SubKey) : svcT (s.armTtl ttl (.expiredSub i a k)).1 = svcT s :=
   svcT_armTtl _ _ _ rfl
 @[simp] theorem svcT_setInst (s : Stack) (i : Nat) (x : Instance) : svcT (s.setInst i x) = svcT s := rfl
-@[simp] theorem svcT_setTask (s : Stack) (i : Nat) (x : TaskSt) : svcT (s.setTask i x) = svcT s := rfl
+@[simp] theorem svcT_setTask (s : Stack) (i : Tid) (x : TaskSt) : svcT (s.setTask i x) = svcT s := rfl
 
 @[simp] theorem svcT_sendSd (s : Stack) (es : List SDEntry) (d : Dest) : svcT (s.sendSd es d) = svcT s := by
   unfold sendSd; split; rfl; simp only []; split; rfl; split <;> rfl
 
 @[simp] theorem svcT_with_flushLog (s : Stack) (x : List (Dest × List SDEntry)) : svcT { s with flushLog := x } = svcT s := rfl
+@[simp] theorem svcT_with_subLog (s : Stack) (x : List (Addr × Nat × List Eventgroup)) : svcT { s with subLog := x } = svcT s := rfl
 @[simp] theorem svcT_flushTo (s : Stack) (es : List SDEntry) (d : Dest) : svcT (s.flushTo es d) = svcT s := by
   unfold flushTo; rw [svcT_sendSd]; rfl
 
@@ -134,18 +133,18 @@ theorem svcT_armTtl (s : Stack) (ttl : Nat) (cb : Cb) (h : isSvcExpiry cb = fals
 
 @[simp] theorem svcT_createTask (s : Stack) (k : TaskKind) : svcT (s.createTask k).1 = svcT s := by
   unfold createTask; simp
-@[simp] theorem svcT_cancelTask (s : Stack) (t : Nat) : svcT (s.cancelTask t) = svcT s := by
+@[simp] theorem svcT_cancelTask (s : Stack) (t : Tid) : svcT (s.cancelTask t) = svcT s := by
   unfold cancelTask; split; rfl; split; rfl; split <;> simp
-@[simp] theorem svcT_sleepFor (s : Stack) (tid : Nat) (t : TaskSt) (d : Nat) (pc : Pc) : svcT (s.sleepFor tid t d pc) = svcT s := by
+@[simp] theorem svcT_sleepFor (s : Stack) (tid : Tid) (t : TaskSt) (d : Nat) (pc : Pc) : svcT (s.sleepFor tid t d pc) = svcT s := by
   unfold sleepFor; split <;> simp
-@[simp] theorem svcT_finish (s : Stack) (tid : Nat) (t : TaskSt) : svcT (s.finish tid t) = svcT s := rfl
-@[simp] theorem svcT_sleepDone (s : Stack) (tid : Nat) : svcT (s.sleepDone tid) = svcT s := by
+@[simp] theorem svcT_finish (s : Stack) (tid : Tid) (t : TaskSt) : svcT (s.finish tid t) = svcT s := rfl
+@[simp] theorem svcT_sleepDone (s : Stack) (tid : Tid) : svcT (s.sleepDone tid) = svcT s := by
   unfold sleepDone; split; rfl; split <;> simp
 
 @[simp] theorem svcT_sendOffer (s : Stack) (i : Nat) (r : Dest) (b : Bool) : svcT (s.sendOffer i r b) = svcT s := by
   unfold sendOffer; split; rfl; split; rfl; simp
 
-@[simp] theorem svcT_stepOffer (s : Stack) (tid : Nat) (t : TaskSt) (i : Nat) : svcT (s.stepOffer tid t i) = svcT s := by
+@[simp] theorem svcT_stepOffer (s : Stack) (tid : Tid) (t : TaskSt) (i : Nat) : svcT (s.stepOffer tid t i) = svcT s := by
   unfold stepOffer
   simp only []
   split
@@ -251,7 +250,7 @@ theorem svcT_armTtl (s : Stack) (ttl : Nat) (cb : Cb) (h : isSvcExpiry cb = fals
   unfold subscriberStop; split; rfl
   simp only []
   have h1 : svcT (match ({ s with alive := false } : Stack).subTask with
-      | some tid => { ({ s with alive := false } : Stack).cancelTask tid with subTask := none }
+      | some tid => { ({ s with alive := false } : Stack).cancelTask (.subscribe, tid) with subTask := none }
       | none => ({ s with alive := false } : Stack)) = svcT s := by
     split
     · show svcT (({ s with alive := false } : Stack).cancelTask _) = svcT s; rw [svcT_cancelTask]; rfl
@@ -260,7 +259,7 @@ theorem svcT_armTtl (s : Stack) (ttl : Nat) (cb : Cb) (h : isSvcExpiry cb = fals
   · rw [foldl_pres svcT _ (fun s p => by simp)]; exact h1
   · exact h1
 
-@[simp] theorem svcT_stepSubscribe (s : Stack) (tid : Nat) (t : TaskSt) : svcT (s.stepSubscribe tid t) = svcT s := by
+@[simp] theorem svcT_stepSubscribe (s : Stack) (tid : Tid) (t : TaskSt) : svcT (s.stepSubscribe tid t) = svcT s := by
   unfold stepSubscribe
   simp only []
   have key : ∀ st : Stack, svcT (List.foldl (fun s p => s.sendSubscribe s.tm.subscribeTtl p.1 p.2) st (groupEntries st.subEntries)) = svcT st :=
@@ -292,7 +291,7 @@ theorem svcT_armTtl (s : Stack) (ttl : Nat) (cb : Cb) (h : isSvcExpiry cb = fals
   · simp
   · rw [svcT_replay]; rfl
 
-@[simp] theorem svcT_stepFind (s : Stack) (tid : Nat) (t : TaskSt) : svcT (s.stepFind tid t) = svcT s := by
+@[simp] theorem svcT_stepFind (s : Stack) (tid : Tid) (t : TaskSt) : svcT (s.stepFind tid t) = svcT s := by
   unfold stepFind; frame_cases
 
 @[simp] theorem svcT_discoveryStart (s : Stack) : svcT s.discoveryStart = svcT s := by
